@@ -16,8 +16,8 @@ GROUPS = [
     sg('gets', 'h_gets', ['qstrgets'], [3, 5], [7]),
     dict(name='str_replace_bounded', harness='qstring/bounded.c', entry='h_replace', mode='unwind', unwind=14, props=['C19', 'C11'],
          functions=['qstrreplace'], units=[U], strength='bounded', timeout=600,
-         bound='source of exactly SN bytes (0..5), token of exactly TN (1..2), word of exactly WN (0..2) bytes, all non-NUL byte values, all four modes',
-         instances=[dict(SN=a, TN=b, WN=c, unwind=max(6, a * max(c, 1) + 2), **({} if a <= 3 else {'tier': 'thorough'})) for a in range(0, 6) for b in (1, 2) for c in (0, 1, 2)]),
+         bound='source of exactly SN bytes (0..5), token of exactly TN (1..2), word of exactly WN (0..2) bytes (except the combination 5/2/2, which exhausts memory), all non-NUL byte values, all four modes',
+         instances=[dict(SN=a, TN=b, WN=c, unwind=max(6, a * max(c, 1) + 2), **({} if (a <= 3 and (a, b, c) != (3, 2, 2)) else {'tier': 'thorough'})) for a in range(0, 6) for b in (1, 2) for c in (0, 1, 2) if (a, b, c) != (5, 2, 2)]),
     sg('tok', 'h_tok', ['qstrtok'], [3, 4], [5, 6]),
     sg('dup', 'h_dup', ['qstrdup_between', 'qmemdup'], [3, 5], [6], props=['C19', 'C11', 'C12']),
 ]
